@@ -124,6 +124,16 @@ CHECKS = {
         note=TRUSTED + " Differential only (the baseline is judged against the reference interpreter by C01; on a disagreement the replay records which side the interpreter supports).",
         design="DESIGN.md section 4 C17",
     ),
+    "C18": dict(
+        technique="property-based testing: programs generated inside the documented class by construction, acceptance predicate + exact reference interpreter; refusals identified by (exception type, raising function)",
+        text="Generated-input search over programs that satisfy the README's loop restrictions by construction, including the sub-classes the property names (loop "
+             "constants in conditions, nested branches reassigning their own condition variables, non-integer finite values in conditions, goals over loop constants, "
+             "guards, categorical and location/scale draws): normalize_program, RecBuilder.get_recurrences and RecurrenceSolver.get must not raise for goals over "
+             "effective variables, the closed form must not contain unexpected symbols, and every accepted answer is compared with the exact interpreter. Open "
+             "refusal call sites are listed in known_findings.json and reported as KNOWN-FINDING; any other exception type or raising function is a violation.",
+        note=TRUSTED + " Soundness of the generator (only programs inside the class) is argued in lib/gen.py; goals over variables Polar classifies defective are skipped; time limits are inconclusive.",
+        design="DESIGN.md section 4 C18",
+    ),
 }
 
 PENDING = {}
